@@ -53,6 +53,8 @@ class Ctx(object):
     def explore(self, path, **kw):
         """paths of path(st), counted"""
         for st, out in ip.explore(path, **kw):
+            if core.side_conditions() and st._full().check() == z3.unsat:
+                continue        # infeasible once the defining side conditions of quotient / sqrt symbols are added
             self.paths += 1
             yield st, out
 
